@@ -29,6 +29,7 @@ TRUSTED = ["model: C14.encodeBin / C14.decodeBin / C14.encodeType / C14.decodeTy
            "iteration with append) and canonicalises values (floats as float32 bit patterns)"]
 NOT_MODELLED = ["UTF-8 validity of decoded strings, exotic UUID spellings accepted by uuid.UUID",
                 "float formatting/parsing in KeyValues2 text (values are carried as their text)",
+                "nested KeyValues2 layout: that the emission order is a permutation of the elements (orderOK) is checked per generated graph by the driver, not proved from reachability",
                 "the header comment regex of Element.parse (the harness checks the literal header)",
                 "element types that collide with a value type name in KeyValues2 (format ambiguity, excluded)",
                 "values outside the wire types (ints beyond int32, doubles that are not float32, NaN payloads, strings with U+0000)"]
@@ -584,14 +585,20 @@ def replay_known(ctx, finding):
     return None
 
 
-LEVEL_TEXT = ("Lean theorems over the model of dmx.py's binary codec: C14_codes (type byte decode . encode = id for all 14x2 "
-              "codes, generic in the extracted table, re-checked on the current VAL_TYPE_TO_IND / ARRAY_OFFSET / comparison "
-              "operator by C14_gen_codes), C14_strtab (string table index/lookup), C14_graph (decodeBin v (encodeBin v g) = g "
-              "for every well-formed indexed graph, every version 0-5, both encodings), C14_kv1 (to_kv1 . from_kv1 = id on "
-              "Keyvalues trees), C14_kv2_quote (quoted text is read back by the tokenizer). The control flow is tied by a "
-              "differential run: the implementation's exported bytes are compared with the model's encoding and decoded "
-              "independently by the model, and compared with the generator's graph and with Element.parse.")
+LEVEL_TEXT = ("Lean theorems over the model of dmx.py: C14_codes (type byte decode . encode = id for all 14x2 codes, generic "
+              "in the extracted table, re-checked on the current source by C14_gen_codes), C14_strtab, C14_graph (decodeBin v "
+              "(encodeBin v g) = g for every well-formed indexed graph, versions 0-5, both encodings), C14_iso_numbering / "
+              "C14_iso / C14_export_parse_iso (the export traversal numbers exactly the reachable elements once, root first; "
+              "the indexed graph is isomorphic to the heap graph; composed with C14_graph), C14_kv2 / C14_kv2_flat "
+              "(KeyValues2: parsing the emitted text of a well-formed graph, nested or flat, with or without cull_uuid, "
+              "yields nodes that are copies of the elements along the emission order, every reference leading to a copy of "
+              "its target; for flat the order is 0..n-1), C14_kv1 (to_kv1 . from_kv1 = id). Control flow tied by a "
+              "differential run: exported bytes/text compared with the model's, decoded independently by the model and "
+              "compared with the generator's graph and Element.parse; the traversal order compared with the order "
+              "export_binary writes; the decidable hypotheses of C14_kv2 evaluated on every generated graph.")
 LEVEL_NOTE = ("Trusted: Lean kernel + propext/Classical.choice/Quot.sound; tools/gen_dmx.py; harness canonicalisation; CPython "
-              "codecs/struct/uuid. KeyValues2 text is modelled only for emission and quoting; its float formatting is not.")
+              "codecs/struct/uuid. KeyValues2 values other than references are carried as their text (the implementation's "
+              "float/vector formatting is not modelled); for the nested layout 'emission order is a permutation of the "
+              "elements' (orderOK) is a decidable side condition checked per case, not derived from reachability.")
 TECHNIQUE = "Lean 4 proof (parser/printer round trip by induction over elements, attributes, values, bytes), translator-extracted tables, differential correspondence with independent decode"
 DESIGN_REF = "DESIGN.md section 6, C14"
